@@ -83,7 +83,8 @@ def kawin_rev():
 
 
 def write_replay(prop, clause, case, viol, seed, tier, sub="", note=None):
-    d = os.path.join(ROOT, "replays", sub) if sub else os.path.join(ROOT, "replays")
+    base = os.environ.get("VK_REPLAY_DIR") or os.path.join(ROOT, "replays")      # VK_REPLAY_DIR: sensitivity runs keep their replays out of the tree
+    d = os.path.join(base, sub) if sub else base
     os.makedirs(d, exist_ok=True)
     h = core.case_hash([clause, case])[:12]
     path = os.path.join(d, "%s-%s-%s-%s.json" % (prop, clause, __import__("re").sub(r"[^A-Za-z0-9_.-]", "_", viol["kind"])[:48], h))
